@@ -89,8 +89,50 @@ let c06_q_line (line : string) : string =
       (fnv_digest entries) res (string_of_z st.e_q.ls) (if full then " LOG " ^ String.concat " " entries else "")
   with _ -> "BADCASE"
 
+(* B-lines: E3 schedules over the BLOCKING path of qrwlock (model: coq/C06/C06_QE3B.v) *)
+let b_user_name = function 0 -> "enq.cvu" | 1 -> "enq.cvs" | 2 -> "blk" | 3 -> "n1.cvu" | 4 -> "na.cvs" | 5 -> "tick" | _ -> "?"
+let b_parse_op (w : string) : bop option =
+  let n = String.length w in
+  if n = 0 then None else
+  let md () = if n > 1 && w.[1] = 'w' then WR else RD in
+  match w.[0] with
+  | 'L' -> Some (BLock (md (), if n > 2 then z_of_string (String.sub w 2 (n - 2)) else z_of_int (-1)))
+  | 'T' -> Some (BTry (md ()))
+  | 'U' -> Some BUnlock
+  | 'A' -> Some BTick
+  | _ -> None
+let b_plist (l : nat list) : string = if l = [] then "-" else String.concat "," (List.map (fun p -> string_of_int (int_of_nat p)) l)
+let c06_b_line (line : string) : string =
+  try
+    let fields = List.map String.trim (String.split_on_char '|' line) in
+    let hd = List.hd fields in
+    let rest = List.tl fields in
+    let hw = split_on ' ' hd in
+    let bound = int_of_string (List.nth hw 1) in
+    let full = (match List.nth_opt hw 2 with Some "full" -> true | _ -> false) in
+    let nrest = List.length rest in
+    if nrest < 2 || bound <= 0 || nrest - 1 > 36 then "BADCASE" else
+    let scripts_s = List.filteri (fun i _ -> i < nrest - 1) rest in
+    let sched = parse_schedule (List.nth rest (nrest - 1)) in
+    let scripts = List.map (fun s -> List.filter_map b_parse_op (split_on ' ' s)) scripts_s in
+    let ((st, log), livelock) = qb_run scripts (nat_of_int bound) sched in
+    let entries = List.filter_map (fun (p, o) -> if int_of_z o.o_kind = 10 then None else Some (fmt_obs q_addr_name b_user_name p o)) log in
+    let n = List.length scripts in
+    let ps = List.init n (fun p -> nat_of_int p) in
+    let res = String.concat "|" (List.map (fun pn ->
+      String.concat "," (List.rev_map (fun r -> Printf.sprintf "%s:%s:%s:%s" (string_of_z r.br_ret) (string_of_z r.br_err) (string_of_z r.br_k0) (string_of_z r.br_k1)) (st.b_res pn))
+      ^ (if List.mem pn (b_blocked st) then "*" else "")) ps) in
+    let hold = String.concat "," (List.filter_map (fun pn ->
+      let c = int_of_nat (b_holdcount st pn) in if c > 0 then Some (Printf.sprintf "%d:%d" (int_of_nat pn) c) else None) ps) in
+    Printf.sprintf "steps=%d %s log=%s res=%s final=%s spin=%d cvu=%s cvs=%s blocked=%s hold=%s now=%s%s" (List.length entries)
+      (if livelock then "livelock" else "ok") (fnv_digest entries) res (string_of_z st.b_q.ls)
+      (match st.b_q.spin with None -> 0 | Some _ -> 1) (b_plist st.b_q.qu) (b_plist st.b_q.qs) (b_plist (b_blocked st))
+      (if hold = "" then "-" else hold) (string_of_z st.b_now) (if full then " LOG " ^ String.concat " " entries else "")
+  with _ -> "BADCASE"
+
 let () =
   iter_lines Sys.argv.(1) (fun l ->
     if String.length l > 0 && l.[0] = 'P' then print_endline (c06_p_line l)
     else if String.length l > 0 && l.[0] = 'Q' then print_endline (c06_q_line l)
+    else if String.length l > 0 && l.[0] = 'B' then print_endline (c06_b_line l)
     else print_endline "BADCASE")
